@@ -4,6 +4,7 @@ use crate::fw::{Cfg, Phase};
 
 pub mod c02;
 pub mod c03;
+pub mod c04;
 pub mod c05;
 pub mod c06;
 pub mod c07;
@@ -20,6 +21,7 @@ pub mod synt;
 pub fn build(cfg: &Cfg) -> (Vec<Box<dyn Phase>>, Result<String, String>) {
     match cfg.property.as_str() {
         "C02" => (c02::phases(cfg), c02::selfcheck()),
+        "C04" => (c04::phases(cfg), c04::selfcheck()),
         "C05" => (c05::phases(cfg), c05::selfcheck()),
         "C06" => (c06::phases(cfg), c06::selfcheck()),
         "C07" => (c07::phases(cfg), c07::selfcheck()),
